@@ -402,7 +402,10 @@ def strategy_restore():
     tup = st.one_of(st.lists(tens, max_size=3), st.integers(11, 12).map(lambda n: [["t"]] * n)).map(lambda l: ["u", l])
     mod = st.lists(st.tuples(st.sampled_from(["factor_matrices", "inv_factor_matrices", "flags", "vals"]), st.one_of(tup, tens)), max_size=3,
                    unique_by=lambda kv: kv[0]).map(lambda l: ["m", [list(x) for x in l]])
-    block = st.lists(st.tuples(st.sampled_from(["shampoo", "momentum", "filtered_grad", "adagrad", "sub"]), st.one_of(tens, mod, st.just(["d", []]))), max_size=4,
+    # an integer-keyed sub-dictionary / a long tuple with 11-25 entries (keys 1 and 10..19, 2 and 20..25 share a decimal prefix) one of which holds no tensor
+    intdict = st.tuples(st.integers(11, 25), st.integers(0, 24), st.sampled_from([["d", []], ["m", []]]), st.booleans()).map(
+        lambda t: ["d", [[{"i": (-i if t[3] else i)}, (t[2] if i == t[1] % t[0] else ["t"])] for i in range(t[0])]])
+    block = st.lists(st.tuples(st.sampled_from(["shampoo", "momentum", "filtered_grad", "adagrad", "sub"]), st.one_of(tens, mod, st.just(["d", []]), intdict)), max_size=4,
                      unique_by=lambda kv: kv[0]).map(lambda l: ["d", [list(x) for x in l]])
     top = st.lists(st.tuples(st.sampled_from(["block_0", "block_1", "block_2", "step"]), st.one_of(block, tens)), min_size=1, max_size=4,
                    unique_by=lambda kv: kv[0]).map(lambda l: ["d", [list(x) for x in l]])
